@@ -39,6 +39,8 @@ static SPANS: Mutex<Option<HashMap<String, Span>>> = Mutex::new(None);
 static LSPANS: Mutex<Option<HashMap<String, LocalSpans>>> = Mutex::new(None);
 static PREFIXES: Mutex<Vec<(u64, usize)>> = Mutex::new(Vec::new());
 static CLOSURE_CALLS: Mutex<u64> = Mutex::new(0);
+/// `Event` values built by `evNew` and attached later by `lAddEventPre` / `addEventPre`
+static EVENTS: Mutex<Option<HashMap<String, Event>>> = Mutex::new(None);
 
 thread_local! {
     static IS_COLLECTOR: Cell<bool> = const { Cell::new(false) };
@@ -600,6 +602,32 @@ fn thread_op(k: usize, guards: &mut Vec<G>, w: &[&str]) -> Option<String> {
         ["lAddEvent", n, p] => {
             LocalSpan::add_event(mk_event(str_of_hex(n)?, p)?);
             "ok".into()
+        }
+        // an `Event` value is built now and attached by a later call (possibly inside a span entered in between)
+        ["evNew", e, n, p] => {
+            let ev = mk_event(str_of_hex(n)?, p)?;
+            EVENTS.lock().unwrap().get_or_insert_with(HashMap::new).insert(e.to_string(), ev);
+            "ok".into()
+        }
+        ["lAddEventPre", e, _n, _p] => {
+            let ev = EVENTS.lock().unwrap().get_or_insert_with(HashMap::new).remove(*e);
+            match ev {
+                Some(ev) => {
+                    LocalSpan::add_event(ev);
+                    "ok".into()
+                }
+                None => "bad-op unknown event".into(),
+            }
+        }
+        ["addEventPre", v, e, _n, _p] => {
+            let ev = EVENTS.lock().unwrap().get_or_insert_with(HashMap::new).remove(*e);
+            match ev {
+                Some(ev) => match with_span(v, |s| s.add_event(ev)) {
+                    Some(()) => "ok".into(),
+                    None => "bad-op unknown span".into(),
+                },
+                None => "bad-op unknown event".into(),
+            }
         }
         ["ctxOf", v] => match with_span(v, |s| SpanContext::from_span(s)) {
             Some(c) => show_ctx(c),
